@@ -442,7 +442,7 @@ func (e *Engine) runLemmaUnit(u *Unit) {
 			st.bumpFrontier()
 			e.havocModifies(st, cenv, ct)
 			res := e.freshResult(st, "res_"+fn.Name(), fn.Signature.Results())
-			post := &Env{eng: e, st: st, pkg: pkg, vars: cenv.vars, oldSnap: snap, hasOld: true, where: "ensures of " + s.Callee}
+			post := &Env{eng: e, st: st, pkg: pkg, vars: cenv.vars, oldSnap: snap, hasOld: true, where: "ensures of " + s.Callee, havocNew: !ct.HasMod}
 			e.bindResults(post, fn, res)
 			for _, en := range ct.Ensures {
 				st.assume(post.evalBool(en.Expr))
@@ -464,6 +464,11 @@ func (e *Engine) runLemmaUnit(u *Unit) {
 			}
 			nassert++
 			st.check("lemma", fmt.Sprintf("%s#assert[%s]", u.Name, nm), env.evalBool(s.Expr), token.NoPos)
+		case "suppose":
+			// a hypothesis of the lemma that speaks about an intermediate state (after the calls made so far)
+			st.assume(env.evalBool(s.Expr))
+			st.oblige("cover-pre", fmt.Sprintf("%s#cover-suppose[%s]", u.Name, s.Name), "false", token.NoPos)
+			e.obligations[len(e.obligations)-1].ExpectSat = true
 		}
 	}
 }
